@@ -211,6 +211,8 @@ impl UState {
                 0 => UStr::from_text(*rng.pick(&["Mutator", "mutator", "MUTATOR"])),
                 1 if !rules.is_empty() => rules[rng.below(rules.len() as u64) as usize].0.clone(), // repeated key
                 2 => UStr::from_text("GamePassword"),
+                // keys that merely look like the special ones are ordinary rules
+                3 if rng.bool() => UStr::from_text(*rng.pick(&["MutatorCount", "Mutators", "mutatorVoting", "xMutator", "Mutator ", "GamePasswordHint", "gamepassword", "AdminName", "Mutato"])),
                 _ => UStr::plain(rng, 20),
             };
             let v = if k.expected() == "GamePassword" { UStr::from_text(*rng.pick(&["True", "False", "true", "false"])) } else { UStr::plain(rng, 30) };
